@@ -118,14 +118,7 @@ Print Assumptions C28_sleep_negative.
 
 (* ---- non-vacuity --------------------------------------------------- *)
 
-(* three actions at one instant + one scheduled from inside + one cancelled *)
-Definition ex_h : list tcmd :=
-  [ TDo (SSched (Abs 5) 0 [SSched Now 3 []; SCancel 2]);
-    TDo (SSched (Abs 5) 1 []);
-    TDo (SSched (Rel 5) 2 []);
-    TDo (SSched (Abs 2) 4 [SSleep 1]);
-    TStart ].
-
+(* [ex_h] (Core/VTimeFacts.v): three actions at one instant + one scheduled from inside + one cancelled *)
 Example C28_witness_order :
   observe (run (Cfg Numeric false) 10 (init 0) ex_h)
   = [OClock 0; OClock 0; OClock 0; OClock 0;
